@@ -443,11 +443,29 @@ impl SourceFile {
     ///
     /// Returns None if the offset is out of bounds.
     pub fn get_line_column(&self, offset: usize) -> Option<LineColumn> {
-        let (_, zero_indexed_line, zero_indexed_column) = self.ariadne().get_byte_line(offset)?;
-        Some(LineColumn {
-            line: zero_indexed_line + 1,
-            column: zero_indexed_column + 1,
-        })
+        if offset > self.source_text.len() {
+            return None;
+        }
+        // Lines are separated by a GraphQL LineTerminator (`\n`, `\r\n` or `\r`),
+        // columns count Unicode scalar values.
+        let mut line = 1;
+        let mut column = 1;
+        let mut previous_is_cr = false;
+        for (index, c) in self.source_text.char_indices() {
+            if index >= offset {
+                break;
+            }
+            match c {
+                '\n' if previous_is_cr => {}
+                '\n' | '\r' => {
+                    line += 1;
+                    column = 1;
+                }
+                _ => column += 1,
+            }
+            previous_is_cr = c == '\r';
+        }
+        Some(LineColumn { line, column })
     }
 
     /// Get starting and ending [`LineColumn`]s for the given `range` 0-indexed UTF-8 byte offsets.
